@@ -113,6 +113,12 @@ QuadCase(n, L, d, c) ==
       xstar |-> xs, invb2 |-> Rat(Frob2(n, ad), dt * dt), lip2 |-> RInt(Frob2(n, A)), sc |-> TRUE,
       starts |-> StartRecs(n, xs)]
 WellConditioned(q) == Frob2(q.n, q.A) * Frob2(q.n, q.adj) <= KappaMax * KappaMax * q.det * q.det
+(* badly scaled quadratics for the option class "unreachable epsilon" (1e-12, 1e-14): L = [[1,0],[o,s]] with a *)
+(* large s (condition number of A about s^2 >= 900) and a large c, so that the minimiser has magnitude >= 100 *)
+(* and the gradient cannot be evaluated to 1e-12 in float64.  The exact minimiser is still rational.  A routine *)
+(* that cannot reach epsilon must say so with an error (or stop at its cap): nil error needs stopOK.            *)
+HardCase(o, sc, c) == [QuadCase(2, << <<1, 0>>, <<o, sc>> >>, 0, c) EXCEPT !.kind = "quadhard"]
+HardCases == {HardCase(o, sc, c) : o \in {-1, 1}, sc \in {30, 50}, c \in {<<200, -300>>, <<300, 100>>}}
 QuadCases == UNION {{QuadCase(n, L, d, c) : L \in Ls(n), d \in Shifts, c \in [1..n -> Cs]} : n \in 1..MaxDim}
 
 (* certificate of optimality, exact *)
@@ -126,6 +132,10 @@ QuadCertificate(q) ==
        /\ s.half.has => LET k == s.half.k IN
             IF s.half.side = 1 THEN RLt(q.xstar[k], s.half.t) /\ RLt(s.half.t, RInt(s.x[k]))
             ELSE RLt(s.half.t, q.xstar[k]) /\ RLt(RInt(s.x[k]), s.half.t)
+
+HardCertificate(q) == /\ QuadCertificate(q)
+                      /\ Frob2(q.n, q.A) >= 810000                                   \* ||A||_F >= 900
+                      /\ \E i \in 1..q.n : RAbs(q.xstar[i].n) >= 100 * q.xstar[i].d    \* |x*_i| >= 100
 
 (* --------------------------- the other families ------------------------ *)
 Ms == {Rat(-3, 2), Rat(1, 3), RInt(2)}
@@ -178,15 +188,21 @@ Cyc3(a, b) == LET c == RSub(ROne, RAdd(a, b)) IN << <<a, b, c>>, <<c, a, b>>, <<
 Channels == {[name |-> "bsc", W |-> Bsc(e)] : e \in {Rat(1, 10), Rat(1, 4), Rat(2, 5)}}
        \cup {[name |-> "bec", W |-> Bec(e)] : e \in {Rat(1, 4), Rat(1, 2)}}
        \cup {[name |-> "cyc3", W |-> Cyc3(Rat(1, 2), Rat(1, 3))], [name |-> "cyc3", W |-> Cyc3(Rat(7, 10), Rat(1, 5))]}
-P0s(n) == IF n = 2 THEN {<<Rat(1, 2), Rat(1, 2)>>, <<Rat(1, 4), Rat(3, 4)>>, <<Rat(9, 10), Rat(1, 10)>>}
-          ELSE {<<Rat(1, 3), Rat(1, 3), Rat(1, 3)>>, <<Rat(1, 2), Rat(1, 4), Rat(1, 4)>>, <<Rat(1, 10), Rat(1, 5), Rat(7, 10)>>}
+(* start distributions, one of them with an exact zero entry (the iteration then stays on that face) *)
+P0s(n) == IF n = 2 THEN {<<Rat(1, 2), Rat(1, 2)>>, <<Rat(1, 4), Rat(3, 4)>>, <<Rat(9, 10), Rat(1, 10)>>, <<RZero, ROne>>}
+          ELSE {<<Rat(1, 3), Rat(1, 3), Rat(1, 3)>>, <<Rat(1, 2), Rat(1, 4), Rat(1, 4)>>, <<Rat(1, 10), Rat(1, 5), Rat(7, 10)>>,
+                <<RZero, Rat(1, 2), Rat(1, 2)>>}
 ChanCase(ch) ==
   LET nx == Len(ch.W)
       ny == Len(ch.W[1])
       u == [x \in 1..nx |-> Rat(1, nx)]
   IN [kind |-> "channel", name |-> ch.name, nx |-> nx, ny |-> ny, W |-> ch.W, pstar |-> u,
       qstar |-> [y \in 1..ny |-> RSumSeq([x \in 1..nx |-> RMul(u[x], ch.W[x][y])])],
-      p0s |-> SetToSeq(P0s(nx)), steps |-> <<1, 10, 200>>]
+      \* admissible starts: every output symbol keeps positive probability (else the posterior q(x|y) is 0/0)
+      p0s |-> SetToSeq({p \in P0s(nx) : \A y \in 1..ny : ~RIsZero(RSumSeq([x \in 1..nx |-> RMul(p[x], ch.W[x][y])]))}),
+      steps |-> <<1, 10, 200>>,
+      \* the relaxation option Lambda on both sides of 1 (1: plain Blahut-Arimoto, the only value with a rate bound)
+      lambdas |-> <<Rat(1, 2), ROne, Rat(5, 4), Rat(3, 2)>>]
 ChanCases == {ChanCase(ch) : ch \in Channels}
 Perms(n) == {f \in [1..n -> 1..n] : \A i, j \in 1..n : i # j => f[i] # f[j]}
 ChanCertificate(c) ==
@@ -203,6 +219,7 @@ Options == [kind |-> "options",
 
 (* ------------------------------ enumeration ---------------------------- *)
 Init == \/ case \in {q \in QuadCases : WellConditioned(q)}
+        \/ case \in HardCases
         \/ case \in SepCases
         \/ case \in QuarticCases
         \/ case \in LogCases
@@ -215,6 +232,7 @@ Spec == Init /\ [][Next]_case
 
 Certificates ==
   CASE case.kind = "quad" -> QuadCertificate(case)
+    [] case.kind = "quadhard" -> HardCertificate(case)
     [] case.kind = "polyroot" -> PolyCertificate(case)
     [] case.kind = "channel" -> ChanCertificate(case)
     [] OTHER -> TRUE
